@@ -45,6 +45,9 @@ func obsTags(o TextObs) []string {
 	if o.Hung {
 		tags = append(tags, "hang")
 	}
+	if o.Stage == "died" {
+		tags = append(tags, "process-died")
+	}
 	if o.Accepted && !o.Built {
 		tags = append(tags, "build-failed-after-nil-error")
 	}
@@ -90,7 +93,7 @@ func runModel(a c17.Schema, kind string, out *kit.Out) *Result {
 	texts := c17.Render(a)
 	o, r := Observe(withSys(texts))
 	co := c17.Observed{Stage: r.Stage, Err: r.Err, Dump: r.Dump, SysUnchanged: true, Deterministic: o.Deterministic}
-	if r.Stage == "hang" || r.Stage == "validate" {
+	if r.Stage == "validate" {
 		co.Stage = "build"
 	}
 	coq := fmt.Sprintf("(TModel %s %s %s %s)", c17.CoqSchema(a), c17.CoqTexts(texts), c17.CoqOutcome(co), cObs(o))
@@ -104,7 +107,7 @@ func runModel(a c17.Schema, kind string, out *kit.Out) *Result {
 }
 
 func runBuilder(items []c17.DItem, kind string, out *kit.Out) {
-	ok, why := BuildFromItems(items)
+	ok, why := BuildIsolated(items)
 	coq := fmt.Sprintf("(TBuilder %s %s)", c17.CoqItems(items), c17.CoqBool(ok))
 	desc := map[string]any{"kind": kind, "items": items, "observed": map[string]any{"accepted": ok, "why": why}}
 	out.Emit(kit.Case{Coq: coq, Key: kind, Nontrivial: true, Desc: desc, Tags: []string{"stream:builder-api", kind, fmt.Sprintf("builder-accepted:%v", ok)}})
